@@ -358,6 +358,13 @@ class Flattener:
             return e
         if isinstance(e, ast.Lambda):
             return e
+        if isinstance(e, ast.BoolOp):
+            # only the first operand is evaluated unconditionally
+            e.values[0] = self._inline_in_expr(e.values[0], ctx, stack, depth, rename, pre)
+            return e
+        if isinstance(e, ast.IfExp):
+            e.test = self._inline_in_expr(e.test, ctx, stack, depth, rename, pre)
+            return e
         for fld, val in ast.iter_fields(e):
             if isinstance(val, ast.AST):
                 setattr(e, fld, self._inline_in_expr(val, ctx, stack, depth, rename, pre))
